@@ -17,51 +17,82 @@ open Abverif.SessCodes Abverif.SessTrace
 /-- `duplicate_invocation_is_violation`: an INVOCATION whose request id is still in `_invocations` (its endpoint has
 not been answered yet) raises `ProtocolError` out of `onMessage` and changes nothing — no endpoint is called. -/
 theorem duplicate_invocation_is_violation (s : Sess) (sid : Nat) (hs : s.sessionId = some sid) (beh : List HAct)
-    (req : ReqId) (reg : RegId) (p : Payload) (rp : Bool) (h : (alookup req s.invs).isSome = true) :
+    (req : ReqId) (reg : RegId) (p : Payload) (rp : Option Bool) (h : (alookup req s.invs).isSome = true) :
     step s (.msg (.invocation req reg p rp) beh) = (s, [.raise_ .protocolError]) := by
   simp [step, onMessage, hs, onEstablished, onInvocation, h]
 
 /-- `unknown_registration_is_violation`: an INVOCATION for a registration id the session does not hold raises
 `ProtocolError` and changes nothing. -/
 theorem unknown_registration_is_violation (s : Sess) (sid : Nat) (hs : s.sessionId = some sid) (beh : List HAct)
-    (req : ReqId) (reg : RegId) (p : Payload) (rp : Bool) (h : alookup reg s.regs = none) :
+    (req : ReqId) (reg : RegId) (p : Payload) (rp : Option Bool) (h : alookup reg s.regs = none) :
     step s (.msg (.invocation req reg p rp) beh) = (s, [.raise_ .protocolError]) := by
   simp only [step, onMessage, hs, onEstablished, onInvocation, h]
   split <;> rfl
 
 /-! ## endpoint_args_exact -/
 
+/-- the caller asked for progressive results: the `receive_progress` detail of the INVOCATION is there and is `true`
+(absent and an explicit `false` both mean no) -/
+def askedProgress : Option Bool → Bool
+  | some true => true
+  | _ => false
+
 /-- the keyword arguments the property says the endpoint gets: the caller's, plus `CallDetails` under the endpoint's own
 `details_arg` if it has one; `details.progress` is there iff the caller asked for progressive results -/
-def endpointKw (g : RegRec) (p : Payload) (rp : Bool) : List (Key × KwVal) :=
+def endpointKw (g : RegRec) (p : Payload) (rp : Option Bool) : List (Key × KwVal) :=
   match g.detailsArg with
   | none => kwOfPayload p
-  | some k => insertKw k (.callDetails g.obj rp) (kwOfPayload p)
+  | some k => insertKw k (.callDetails g.obj (askedProgress rp)) (kwOfPayload p)
 
 /-- `endpoint_args_exact`: an INVOCATION for an active registration whose id is not in use calls the endpoint of that
 registration — first thing — with exactly the caller's positional arguments and keyword arguments, plus the call details
-under the endpoint's `details_arg` iff it was registered with one. -/
+under the endpoint's `details_arg` iff it was registered with one; the details carry a progress callable iff the
+`receive_progress` detail is `true` — for each of the three wire forms (absent, `true`, `false`). -/
 theorem endpoint_args_exact (s : Sess) (sid : Nat) (hs : s.sessionId = some sid) (beh : List HAct)
-    (req : ReqId) (reg : RegId) (p : Payload) (rp : Bool) (g : RegRec)
+    (req : ReqId) (reg : RegId) (p : Payload) (rp : Option Bool) (g : RegRec)
     (hfree : alookup req s.invs = none) (hreg : alookup reg s.regs = some g) :
     ∃ rest, (step s (.msg (.invocation req reg p rp) beh)).2 =
         .endpoint req g.obj g.endpoint (p.args.getD []) (endpointKw g p rp) :: rest := by
   unfold endpointKw
+  have hrp : (rp == some true) = askedProgress rp := by
+    cases rp with
+    | none => rfl
+    | some b => cases b <;> rfl
   cases hd : g.detailsArg <;>
-    simp only [step, onMessage, hs, onEstablished, onInvocation, hfree, hreg, hd, Option.isSome_none, Option.isSome_some,
+    simp only [step, onMessage, hs, onEstablished, onInvocation, hfree, hreg, hd, hrp, Option.isSome_none, Option.isSome_some,
       Bool.false_eq_true, Bool.true_and, Bool.false_and, ↓reduceIte] <;>
     exact ⟨_, rfl⟩
 
-/-- `progress_only_if_asked`: when the caller did not ask for progressive results, or the endpoint takes no call details,
-there is no `details.progress` to call: whatever progress calls the endpoint would make, the step is the one of an
-endpoint that makes none (no progressive YIELD is sent, the id is not recorded as holding a progress callable). -/
+/-- `progress_only_if_asked`: when the caller did not ask for progressive results — the `receive_progress` detail is
+absent or explicitly `false` — or the endpoint takes no call details, there is no `details.progress` to call: whatever
+progress calls the endpoint would make, the step is the one of an endpoint that makes none (no progressive YIELD is sent,
+the id is not recorded as holding a progress callable). -/
 theorem progress_only_if_asked (s : Sess) (sid : Nat) (hs : s.sessionId = some sid) (act : HAct) (rest : List HAct)
-    (req : ReqId) (reg : RegId) (p : Payload) (rp : Bool) (g : RegRec) (hreg : alookup reg s.regs = some g)
-    (hno : (g.detailsArg.isSome && rp) = false) :
+    (req : ReqId) (reg : RegId) (p : Payload) (rp : Option Bool) (g : RegRec) (hreg : alookup reg s.regs = some g)
+    (hno : (g.detailsArg.isSome && askedProgress rp) = false) :
     step s (.msg (.invocation req reg p rp) (act :: rest)) =
       step s (.msg (.invocation req reg p rp) ({ act with progress := [] } :: rest)) := by
-  simp only [step, onMessage, hs, onEstablished, onInvocation, hreg, hno, List.headD_cons, Bool.false_eq_true, ↓reduceIte]
+  have hrp : (rp == some true) = askedProgress rp := by
+    cases rp with
+    | none => rfl
+    | some b => cases b <;> rfl
+  simp only [step, onMessage, hs, onEstablished, onInvocation, hreg, hrp, hno, List.headD_cons, Bool.false_eq_true, ↓reduceIte]
   rfl
+
+/-- non-vacuity: the same endpoint (reports progress 3, returns 9) invoked with the detail absent, `false`, `true` — a
+progressive YIELD only in the last case, and only then does `CallDetails` carry a callable -/
+example : (runOuts (runState (init .sync) [.open_ [], .msg (.welcome 7) [], .api (.register 1 4 (some { detailsArg := some 0 }) .ok),
+      .msg (.registered 1 70) []])
+      [.msg (.invocation 5 70 {} none) [{ ret := .val 9, progress := [3] }],
+       .msg (.invocation 6 70 {} (some false)) [{ ret := .val 9, progress := [3] }],
+       .msg (.invocation 7 70 {} (some true)) [{ ret := .val 9, progress := [3] }]]) =
+    [.endpoint 5 0 1 [] [(0, .callDetails 0 false)], .send { typ := .yield_, req := 5, args := [9] },
+     .endpoint 6 0 1 [] [(0, .callDetails 0 false)], .send { typ := .yield_, req := 6, args := [9] },
+     .endpoint 7 0 1 [] [(0, .callDetails 0 true)], .send { typ := .yield_, req := 7, opts := [(.progress, .b true)], args := [3] },
+     .send { typ := .yield_, req := 7, args := [9] }] := by decide
+
+/-- the three wire forms of the detail: only `true` asks -/
+example : askedProgress none = false ∧ askedProgress (some false) = false ∧ askedProgress (some true) = true := ⟨rfl, rfl, rfl⟩
 
 /-- … and when it did, the progressive results of the endpoint go out before anything else the step sends: the outputs
 are the endpoint call, then one progressive YIELD per progress call (transport up, `send()` accepting), then the rest -/
@@ -69,8 +100,8 @@ theorem progress_before_terminal_in_step (s : Sess) (sid : Nat) (hs : s.sessionI
     (req : ReqId) (reg : RegId) (p : Payload) (g : RegRec) (k : Key)
     (hfree : alookup req s.invs = none) (hreg : alookup reg s.regs = some g) (hd : g.detailsArg = some k)
     (ht : s.transport = true) (hf : s.faults = []) :
-    ∃ tail, (step s (.msg (.invocation req reg p true) (act :: rest))).2 =
-      .endpoint req g.obj g.endpoint (p.args.getD []) (endpointKw g p true) ::
+    ∃ tail, (step s (.msg (.invocation req reg p (some true)) (act :: rest))).2 =
+      .endpoint req g.obj g.endpoint (p.args.getD []) (endpointKw g p (some true)) ::
         (act.progress.map (fun v => SOut.send { typ := .yield_, req := req, opts := [(.progress, .b true)], args := [v] }) ++ tail) := by
   have hloop : ∀ (s0 : Sess) (vs : List Val), s0.transport = true → s0.faults = [] →
       (progressLoop s0 req vs) = (s0, vs.map (fun v => SOut.send { typ := .yield_, req := req, opts := [(.progress, .b true)], args := [v] }), false) := by
@@ -198,30 +229,30 @@ ValueError for an oversize message; today: Twisted RawSocket raises the serializ
 result) — the endpoint is called, nothing is ever sent for the id -/
 theorem one_terminal_reply_fails_send_raises_other : ¬ OneTerminalReply := by
   intro h
-  have := h .sync (callee1 ++ [.fault [.other], .msg (.invocation 9 70 {} false) [{ ret := .val 1 }]]) 9
+  have := h .sync (callee1 ++ [.fault [.other], .msg (.invocation 9 70 {} none) [{ ret := .val 1 }]]) 9
     (by intro e he acts hc; subst hc; simp [callee1] at he) (by decide)
   revert this; decide
 
 /-- … an oversize result: the fallback ERROR repeats the result in its message and is refused as well -/
 theorem one_terminal_reply_fails_fallback_refused : ¬ OneTerminalReply := by
   intro h
-  have := h .sync (callee1 ++ [.fault [.payloadExceeded, .payloadExceeded], .msg (.invocation 9 70 {} false) [{ ret := .val 1 }]]) 9
+  have := h .sync (callee1 ++ [.fault [.payloadExceeded, .payloadExceeded], .msg (.invocation 9 70 {} none) [{ ret := .val 1 }]]) 9
     (by intro e he acts hc; subst hc; simp [callee1] at he) (by decide)
   revert this; decide
 
 /-- … and an exception the ERROR cannot be built from (`error-path:encode-raises:no-reply`) -/
 theorem one_terminal_reply_fails_unbuildable : ¬ OneTerminalReply := by
   intro h
-  have := h .sync (callee1 ++ [.msg (.invocation 9 70 {} false) [{ raises := true, exc := .unbuildable }]]) 9
+  have := h .sync (callee1 ++ [.msg (.invocation 9 70 {} none) [{ raises := true, exc := .unbuildable }]]) 9
     (by intro e he acts hc; subst hc; simp [callee1] at he) (by decide)
   revert this; decide
 
 /-- non-vacuity of the accounting: three invocations (plain, failing with the fallback, interrupted while pending) get
 one terminal reply each; on asyncio the replies go out when the loop runs -/
 example : let outs := runOuts (init .deferred) ([.open_ [], .pump, .msg (.welcome 7) [], .pump,
-      .api (.register 1 4 (some { detailsArg := some 0 }) .ok), .msg (.registered 1 70) [], .pump, .msg (.invocation 5 70 { args := some [1] } true) [{ ret := .val 9, progress := [3] }],
-      .fault [.payloadExceeded, .ok], .msg (.invocation 6 70 {} false) [{ ret := .callResult [1] [] }],
-      .msg (.invocation 7 70 {} false) [{ ret := .pending }], .msg (.interrupt 7) [], .pump])
+      .api (.register 1 4 (some { detailsArg := some 0 }) .ok), .msg (.registered 1 70) [], .pump, .msg (.invocation 5 70 { args := some [1] } (some true)) [{ ret := .val 9, progress := [3] }],
+      .fault [.payloadExceeded, .ok], .msg (.invocation 6 70 {} none) [{ ret := .callResult [1] [] }],
+      .msg (.invocation 7 70 {} none) [{ ret := .pending }], .msg (.interrupt 7) [], .pump])
     (terminals 5 outs, terminals 6 outs, terminals 7 outs, accepts 5 outs, accepts 6 outs, accepts 7 outs) = (1, 1, 1, 1, 1, 1) := by decide
 
 /-! ## progress_before_terminal (U2) -/
@@ -244,7 +275,7 @@ def ProgressBeforeTerminal : Prop :=
 /-- it fails (U2): the endpoint keeps `details.progress` and calls it after it returned -/
 theorem progress_before_terminal_fails_U2 : ¬ ProgressBeforeTerminal := by
   intro h
-  have := h .sync (callee1 ++ [.msg (.invocation 5 70 {} true) [{ ret := .val 9, progress := [3] }], .lateProgress 5 8]) 5
+  have := h .sync (callee1 ++ [.msg (.invocation 5 70 {} (some true)) [{ ret := .val 9, progress := [3] }], .lateProgress 5 8]) 5
   revert this; decide
 
 /-! ## interrupt_yields_error -/
@@ -276,7 +307,7 @@ theorem interrupt_ignored (s : Sess) (sid : Nat) (hs : s.sessionId = some sid) (
   · intro x h hf; simp [step, onMessage, hs, onEstablished, settleInv, h, hf]
 
 /-- non-vacuity: INTERRUPT before (ignored), between (cancels the pending result; a later completion is ignored), after -/
-example : runOuts (init .sync) (callee1 ++ [.msg (.interrupt 5) [], .msg (.invocation 5 70 {} false) [{ ret := .pending }],
+example : runOuts (init .sync) (callee1 ++ [.msg (.interrupt 5) [], .msg (.invocation 5 70 {} none) [{ ret := .pending }],
       .msg (.interrupt 5) [], .resolve 5 (.val 1), .msg (.interrupt 5) []]) =
     (runOuts (init .sync) callee1) ++ [.endpoint 5 0 1 [] [(0, .callDetails 0 false)], .userError,
       .send { typ := .error, req := 5, uri := uRuntimeError }] := by decide
